@@ -258,6 +258,22 @@ pub struct DynBox<'gc> {
     pub pattern: u64,
 }
 
+/// A type that claims `NEEDS_TRACE = false` but whose `trace` is not a no-op: it announces itself
+/// and can be made to panic. The collector only calls it for a resurrected object (which is queued
+/// whatever its type).
+pub struct NtNode {
+    pub tok: Tok,
+    pub probe: Probe,
+    pub pattern: u64,
+}
+
+unsafe impl<'gc> Collect<'gc> for NtNode {
+    const NEEDS_TRACE: bool = false;
+    fn trace<T: Trace<'gc>>(&self, _cc: &mut T) {
+        obs::on_probe_trace(self.probe.arena, self.probe.id);
+    }
+}
+
 /// Body of a `Gc<RefLock<Body>>`.
 #[derive(Collect)]
 #[collect(no_drop)]
@@ -315,6 +331,7 @@ pub enum Ref<'gc> {
     Arr(Gc<'gc, [Slot<'gc>]>),
     P(Gc<'gc, PNode<'gc>>),
     DB(Gc<'gc, DynBox<'gc>>),
+    NT(Gc<'gc, NtNode>),
     Set(DynamicRootSet<'gc>, usize),
 }
 
@@ -341,6 +358,7 @@ pub enum WeakRef<'gc> {
     Arr(GcWeak<'gc, [Slot<'gc>]>),
     P(GcWeak<'gc, PNode<'gc>>),
     DB(GcWeak<'gc, DynBox<'gc>>),
+    NT(GcWeak<'gc, NtNode>),
 }
 
 macro_rules! each_gc {
@@ -363,6 +381,7 @@ macro_rules! each_gc {
             Ref::Arr($g) => $e,
             Ref::P($g) => $e,
             Ref::DB($g) => $e,
+            Ref::NT($g) => $e,
             Ref::Set(_, _) => unreachable!("set handled separately"),
         }
     };
@@ -385,6 +404,7 @@ macro_rules! each_weak {
             WeakRef::Arr($g) => $e,
             WeakRef::P($g) => $e,
             WeakRef::DB($g) => $e,
+            WeakRef::NT($g) => $e,
         }
     };
 }
@@ -425,6 +445,7 @@ impl<'gc> Ref<'gc> {
             Ref::Arr(g) => WeakRef::Arr(Gc::downgrade(g)),
             Ref::P(g) => WeakRef::P(Gc::downgrade(g)),
             Ref::DB(g) => WeakRef::DB(Gc::downgrade(g)),
+            Ref::NT(g) => WeakRef::NT(Gc::downgrade(g)),
             Ref::Set(_, _) => return None,
         })
     }
@@ -434,7 +455,7 @@ impl<'gc> Ref<'gc> {
         match self {
             Ref::D(g) => g.strong(),
             Ref::R(g) => g.s.iter().map(|c| c.get()).collect(),
-            Ref::L(_) | Ref::LS(_) | Ref::Str(_) | Ref::TStr(_) => vec![],
+            Ref::L(_) | Ref::LS(_) | Ref::Str(_) | Ref::TStr(_) | Ref::NT(_) => vec![],
             Ref::LB(g) => vec![g.get()],
             Ref::RB(g) => g.borrow().s.to_vec(),
             Ref::OB(g) => vec![g.get().copied()],
@@ -483,6 +504,7 @@ impl<'gc> Ref<'gc> {
             Ref::Dyn(g) => Some((g.node().tok.id, g.node().pattern)),
             Ref::P(g) => Some((g.tok.id, g.pattern)),
             Ref::DB(g) => Some((g.tok.id, g.pattern)),
+            Ref::NT(g) => Some((g.tok.id, g.pattern)),
             Ref::LB(_) | Ref::OB(_) | Ref::Sl(_) | Ref::TSl(_) | Ref::Arr(_) | Ref::Set(_, _) => None,
         }
     }
@@ -528,6 +550,7 @@ impl<'gc> WeakRef<'gc> {
             WeakRef::Arr(g) => Ref::Arr(g.upgrade(mc)?),
             WeakRef::P(g) => Ref::P(g.upgrade(mc)?),
             WeakRef::DB(g) => Ref::DB(g.upgrade(mc)?),
+            WeakRef::NT(g) => Ref::NT(g.upgrade(mc)?),
         })
     }
 
@@ -547,6 +570,7 @@ impl<'gc> WeakRef<'gc> {
             WeakRef::Arr(g) => Ref::Arr(g.resurrect(fc)?),
             WeakRef::P(g) => Ref::P(g.resurrect(fc)?),
             WeakRef::DB(g) => Ref::DB(g.resurrect(fc)?),
+            WeakRef::NT(g) => Ref::NT(g.resurrect(fc)?),
         })
     }
 }
@@ -649,6 +673,23 @@ impl Handle {
             Handle::LB(h) => Ref::LB(set.fetch(h)),
             Handle::L(h) => Ref::L(set.fetch(h)),
         }
+    }
+
+    /// `Clone::clone_from` on the underlying `DynamicRoot` (same payload type only).
+    pub fn clone_from_handle(&mut self, src: &Handle) -> bool {
+        match (self, src) {
+            (Handle::D(a), Handle::D(b)) => a.clone_from(b),
+            (Handle::R(a), Handle::R(b)) => a.clone_from(b),
+            (Handle::RB(a), Handle::RB(b)) => a.clone_from(b),
+            (Handle::LB(a), Handle::LB(b)) => a.clone_from(b),
+            (Handle::L(a), Handle::L(b)) => a.clone_from(b),
+            _ => return false,
+        }
+        true
+    }
+
+    pub fn same_variant(&self, other: &Handle) -> bool {
+        std::mem::discriminant(self) == std::mem::discriminant(other)
     }
 
     pub fn raw_addr(&self) -> usize {
